@@ -18,7 +18,7 @@ def validate(run, events, module='Trace_Calls', cfg=None, name='trace', timeout=
         with open(path, 'w') as fh:
             for e in chunk:
                 fh.write(json.dumps(e, separators=(',', ':')) + '\n')
-        r = run.tlc(module, cfg, dump=True, workers=1, timeout=timeout, env={'TRACE_FILE': path},
+        r = run.tlc(module, cfg, dump=True, workers=1, timeout=timeout, env={'TRACE_FILE': path}, heap='3g',
                     name=f'{name}-{bi}')
         verdicts = {}
         for b in dump_blocks(r.dump):
